@@ -1,84 +1,57 @@
 (* C19 -- Relative paths in diagnostics and lookups resolve to the file they mean.
    Only statements; every proof is `exact <lemma>`.
    Model: Model/Paths.v (path.go, Pkglint.Abs, Pkgsrc.Relpath, Line.Rel as they are after
-   the fix: commits 514c6db and 9dfe426).  Specification: Spec/PathDenote.v. *)
+   the fix: commits 514c6db, 9dfe426 and the four repairs of CleanDot/CleanPath,
+   HasPrefixPath, ContainsPath, HasSuffixPath).  Specification: Spec/PathDenote.v. *)
 From PV Require Import Lib.Bytes Model.Paths Spec.PathDenote Proofs.PathsBase Proofs.PathsClean
   Proofs.PathsPrefix Proofs.PathsContains Proofs.PathsSuffix Proofs.PathsRelpath Proofs.PathsRefute
   Proofs.PathsProps.
 Open Scope N_scope.
 
 (* ---------- cleaning a path never changes the file it denotes ---------- *)
+(* all byte strings, all working directories *)
 
-(* Path.Clean (Go's path.Clean): all byte strings, all working directories *)
+(* Path.Clean (Go's path.Clean) *)
 Theorem C19_clean_denotes : forall cwd p : str, denote cwd (clean p) = denote cwd p.
 Proof. exact clean_denotes. Qed.
 Print Assumptions C19_clean_denotes.
 
-(* Path.CleanDot: false for the paths that denote the root and are not written "/"
-   ("/.", "//", ...): the result is the empty path *)
-Definition C19_clean_dot_denotes_full : Prop :=
-  forall cwd p : str, denote cwd (clean_dot p) = denote cwd p.
-Theorem C19_clean_dot_denotes_refuted : ~ C19_clean_dot_denotes_full.
-Proof. exact clean_dot_denotes_refuted. Qed.
-Print Assumptions C19_clean_dot_denotes_refuted.
-Theorem C19_clean_dot_denotes_partial : forall cwd p : str,
-  components p <> [[]] ->                      (* p is not a spelling of the root directory *)
-  denote cwd (clean_dot p) = denote cwd p.
-Proof. exact clean_dot_denotes_partial. Qed.
-Print Assumptions C19_clean_dot_denotes_partial.
+(* Path.CleanDot (a spelling of the root such as "/." becomes "/") *)
+Theorem C19_clean_dot_denotes : forall cwd p : str, denote cwd (clean_dot p) = denote cwd p.
+Proof. exact clean_dot_denotes. Qed.
+Print Assumptions C19_clean_dot_denotes.
 
-(* Path.CleanPath: the same, and here "/" itself goes wrong too *)
-Definition C19_clean_path_denotes_full : Prop :=
-  forall cwd p : str, denote cwd (clean_path p) = denote cwd p.
-Theorem C19_clean_path_denotes_refuted : ~ C19_clean_path_denotes_full.
-Proof. exact clean_path_denotes_refuted. Qed.
-Print Assumptions C19_clean_path_denotes_refuted.
-Theorem C19_clean_path_denotes_partial : forall cwd p : str,
-  components p <> [[]] ->
-  denote cwd (clean_path p) = denote cwd p.
-Proof. exact clean_path_denotes_partial. Qed.
-Print Assumptions C19_clean_path_denotes_partial.
+(* Path.CleanPath *)
+Theorem C19_clean_path_denotes : forall cwd p : str, denote cwd (clean_path p) = denote cwd p.
+Proof. exact clean_path_denotes. Qed.
+Print Assumptions C19_clean_path_denotes.
 
 (* ---------- the component-wise tests agree with comparing component lists ---------- *)
-(* (for non-empty paths: the empty path denotes nothing; the test suite fixes
-   "x".HasPrefixPath("") = false and "".HasPrefixPath("") = true) *)
+(* For non-empty paths: the empty path denotes nothing; the test suite fixes
+   "x".HasPrefixPath("") = false and "".HasPrefixPath("") = true.
+   Paths may contain any redundant "/", "./", "/." -- no canonical form is assumed. *)
 
-Definition C19_prefix_is_parts_prefix_full : Prop :=
-  forall p q : str, p <> [] -> q <> [] -> has_prefix_path p q = path_prefixb q p.
-Theorem C19_prefix_is_parts_prefix_refuted : ~ C19_prefix_is_parts_prefix_full.
-Proof. exact prefix_is_parts_prefix_refuted. Qed.          (* "a".HasPrefixPath("./") = false *)
-Print Assumptions C19_prefix_is_parts_prefix_refuted.
-Theorem C19_prefix_is_parts_prefix_partial : forall p q : str,
+Theorem C19_prefix_is_parts_prefix : forall p q : str,
   p <> [] -> q <> [] ->
-  (components q = [] -> q = dotstr) ->   (* a prefix without any name is the text ".", not "./" or "./." *)
-  (q = dotstr -> is_abs p = rooted p) -> (* for q = ".": p has no Windows drive prefix "X:/" *)
+  (components q = [] -> is_abs p = rooted p) -> (* for q = ".", "./", ...: p has no Windows drive prefix "X:/" *)
   has_prefix_path p q = path_prefixb q p.
-Proof. exact prefix_is_parts_prefix_partial. Qed.
-Print Assumptions C19_prefix_is_parts_prefix_partial.
+Proof. exact prefix_is_parts_prefix_all. Qed.
+Print Assumptions C19_prefix_is_parts_prefix.
 
-Definition C19_contains_is_parts_infix_full : Prop :=
-  forall p sub : str, p <> [] -> sub <> [] -> contains_path p sub = path_infixb sub p.
-Theorem C19_contains_is_parts_infix_refuted : ~ C19_contains_is_parts_infix_full.
-Proof. exact contains_is_parts_infix_refuted. Qed.          (* "a/b".ContainsPath("b/") = false *)
-Print Assumptions C19_contains_is_parts_infix_refuted.
-Theorem C19_contains_is_parts_infix_partial : forall p sub : str,
-  p <> [] ->
-  canonical sub ->                        (* sub is written without redundant "/", "./", "/." *)
-  (rooted sub = false \/ has_double_slash p = false) ->
+Theorem C19_contains_is_parts_infix : forall p sub : str,
+  p <> [] -> sub <> [] ->
+  (components sub = [] -> ~ In colon p) ->      (* for sub = ".", "./", ...: no ':' in p (same drive rule) *)
   contains_path p sub = path_infixb sub p.
-Proof. exact contains_is_parts_infix_partial. Qed.
-Print Assumptions C19_contains_is_parts_infix_partial.
+Proof. exact contains_is_parts_infix_all. Qed.
+Print Assumptions C19_contains_is_parts_infix.
 
-Definition C19_suffix_is_parts_suffix_full : Prop :=
-  forall p suffix : str, p <> [] -> suffix <> [] -> has_suffix_path p suffix = path_suffixb suffix p.
-Theorem C19_suffix_is_parts_suffix_refuted : ~ C19_suffix_is_parts_suffix_full.
-Proof. exact suffix_is_parts_suffix_refuted. Qed.           (* "a/b/".HasSuffixPath("b") = false *)
-Print Assumptions C19_suffix_is_parts_suffix_refuted.
-Theorem C19_suffix_is_parts_suffix_partial : forall p suffix : str,
-  canonical p -> canonical suffix -> suffix <> dotstr ->
+(* "It doesn't really make sense to ask whether a path ends with the current directory"
+   (path_test.go, which fixes "dir".HasSuffixPath(".") = false): the suffix has a component *)
+Theorem C19_suffix_is_parts_suffix : forall p suffix : str,
+  p <> [] -> suffix <> [] -> components suffix <> [] ->
   has_suffix_path p suffix = path_suffixb suffix p.
-Proof. exact suffix_is_parts_suffix_partial. Qed.
-Print Assumptions C19_suffix_is_parts_suffix_partial.
+Proof. exact suffix_is_parts_suffix_all. Qed.
+Print Assumptions C19_suffix_is_parts_suffix.
 
 (* ---------- Pkgsrc.Relpath ---------- *)
 (* From every directory inside the pkgsrc tree to every location, inside or outside:
@@ -139,5 +112,12 @@ Example C19_prefix_trailing_slash :
   has_prefix_path [97; 47; 98] [97; 47] = true /\ has_prefix_path [47; 97] [47] = true.
 Proof. split; vm_compute; reflexivity. Qed.
 
-Example C19_canonical_witness : canonical [97; 47; 98] /\ canonical [47] /\ canonical [46] /\ ~ canonical [97; 47].
-Proof. repeat split; try (vm_compute; reflexivity). intro H. vm_compute in H. discriminate. Qed.
+(* the repaired cases *)
+Example C19_repaired :
+  clean_dot [47; 46] = [47] /\ clean_path [47] = [47] /\                        (* "/." -> "/", "/" -> "/" *)
+  has_prefix_path [97] [46; 47] = true /\                                       (* "a" has prefix "./" *)
+  contains_path [97; 47; 98] [98; 47] = true /\                                 (* "a/b" contains "b/" *)
+  contains_path [97; 47; 47; 98] [47; 98] = false /\                            (* "a//b" does not contain "/b" *)
+  has_suffix_path [97; 47; 98; 47] [98] = true /\                               (* "a/b/" ends with "b" *)
+  has_suffix_path [120; 47; 47; 97] [47; 97] = false.                           (* "x//a" does not end with "/a" *)
+Proof. repeat split; vm_compute; reflexivity. Qed.
